@@ -175,7 +175,8 @@ def gen_universe(rng, draft="2020", max_docs=3):
             # a reference that designates nothing
             ref = rng.choice(["#nosuch", "#/" + defs_kw + "/nosuch", "#/" + defs_kw, "nosuch.json", "#/allOf/0", "#/%zz", "#bad anchor",
                               "#/not", "#/if", "#/additionalProperties", "#/contains", "#/properties", "#/title", "#/required/0",
-                              "#/" + defs_kw + "/", "#/properties/p0/$ref"])
+                              "#/" + defs_kw + "/", "#/properties/p0/$ref", "#/allOf/+0", "#/allOf/-0", "#/allOf/00", "#/allOf/1",
+                              "#/allOf/-", "#/allOf/0/x"])
             dangling = True
             props.kvs.append(("p%d" % i, Obj([("$ref", ref)])))
             expect_targets.append(None)
@@ -211,6 +212,8 @@ def gen_universe(rng, draft="2020", max_docs=3):
         props.kvs.append(("p%d" % i, Obj([("$ref", ref)])))
         expect_targets.append(t)
     root_body.set("properties", props)
+    if dangling or rng.random() < 0.2:
+        root_body.set("allOf", [True])
 
     # chains / cycles between documents (guarded by "next")
     if docs and rng.random() < 0.5:
